@@ -41,3 +41,27 @@ kproof! {
         kani::cover!(an == 0, "nothing inserted (4k boundary)");
     }
 }
+
+use crate::preflate_token::{BlockType, PreflateToken, PreflateTokenBlock};
+kproof! {
+    /// K02h: range of estimate_add_policy on the real function: the limit it returns fits the 8-bit field of
+    /// the parameter header (this is the precondition `any_add_policy` of the parameter round-trip lemmas)
+    fn k02h_add_policy_range() {
+        let mut blk = PreflateTokenBlock::new(BlockType::StaticHuff);
+        blk.add_literal(1);
+        let l1: u32 = kani::any(); let l2: u32 = kani::any(); let d2: u32 = kani::any();
+        kani::assume(l1 >= 3 && l1 <= 258 && l2 >= 3 && l2 <= 258);
+        blk.add_reference(l1, 1, false);
+        kani::assume(d2 >= 1 && d2 <= 1 + l1);
+        blk.add_reference(l2, d2, false);
+        let blocks = vec![blk];
+        let p = estimate_add_policy(&blocks);
+        match p {
+            DictionaryAddPolicy::AddFirst(v) | DictionaryAddPolicy::AddFirstAndLast(v) => assert!(v <= 255, "add-policy limit does not fit the 8-bit header field"),
+            _ => {}
+        }
+        kani::cover!(matches!(p, DictionaryAddPolicy::AddFirst(255)), "AddFirst(255)");
+        kani::cover!(matches!(p, DictionaryAddPolicy::AddAll), "AddAll");
+        core::mem::forget(blocks);
+    }
+}
